@@ -14,4 +14,5 @@ def run(ctx):
                        'bootstrap is not one of the entry points the property names (it applies adopt updates by design)']
     ctx.proof_phase(extra_targets=['Corr/Check_Deploy.vo'])
     ds.run_cli_stream(ctx, 14 if quick else 200, 4 if quick else 8, props={'C01'})
+    ds.run_cli_stream(ctx, 8 if quick else 120, 2, props={'C01'}, stream='partly_managed', script=ds.script_partial_manifest)
     ds.run_lib_stream(ctx, 80 if quick else 1500, props={'C01'})
